@@ -1205,7 +1205,7 @@ func (c *Client) deleteAllRpMst(dbi *meta2.DatabaseInfo, database, measurement s
 			continue
 		}
 		if msti.MarkDeleted {
-			return nil
+			continue
 		}
 		cmd := &proto2.MarkMeasurementDeleteCommand{
 			Database:    proto.String(database),
